@@ -16,15 +16,15 @@ CASE picks the first true WHEN, `DELETE … USING` deletes every target row join
 -/
 namespace Fs.Merge
 
+/-- a target row: the join key (`none` when any key column is NULL: it never joins) and the non-key columns -/
 structure TRow where
-  key : Option Nat
-  x : Nat
-  v : Nat
+  key : Option (List Nat)
+  vals : List Nat
 deriving DecidableEq, Repr
 
 structure SRow where
-  key : Option Nat
-  y : Nat
+  key : Option (List Nat)
+  vals : List Nat
 deriving DecidableEq, Repr
 
 def on (t : TRow) (s : SRow) : Bool :=
@@ -34,26 +34,32 @@ def on (t : TRow) (s : SRow) : Bool :=
 
 inductive Clause
   | mDelete (cond : TRow → SRow → Bool)
-  | mUpdate (cond : TRow → SRow → Bool)          -- set v = s.y
-  | nInsert (cond : SRow → Bool)                  -- insert (s.key, 0, s.y)
+  | mUpdate (cond : TRow → SRow → Bool) (f : List Nat → List Nat → List Nat)  -- non-key columns := f old (source columns)
+  | nInsert (cond : SRow → Bool) (mk : List Nat → List Nat)                   -- insert (s.key, mk (source columns))
 
-def Clause.matched : Clause → Bool | .nInsert _ => false | _ => true
+def Clause.matched : Clause → Bool | .nInsert _ _ => false | _ => true
 
 /-- index of the first applicable matched clause for the pair -/
 def opM (cs : List Clause) (t : TRow) (s : SRow) : Option Nat :=
   cs.findIdx? fun c => match c with
-    | .mDelete k => k t s | .mUpdate k => k t s | .nInsert _ => false
+    | .mDelete k => k t s | .mUpdate k _ => k t s | .nInsert _ _ => false
 
 def opN (cs : List Clause) (s : SRow) : Option Nat :=
   cs.findIdx? fun c => match c with
-    | .nInsert k => k s | _ => false
+    | .nInsert k _ => k s | _ => false
 
 /-! ### Spec -/
 def applyM (c : Clause) (t : TRow) (s : SRow) : Option TRow :=
   match c with
   | .mDelete _ => none
-  | .mUpdate _ => some { t with v := s.y }
-  | .nInsert _ => some t
+  | .mUpdate _ f => some { t with vals := f t.vals s.vals }
+  | .nInsert _ _ => some t
+
+/-- the row an insert clause builds from a source row (clause looked up by index) -/
+def mkRowAt (cs : List Clause) (i : Nat) (s : SRow) : TRow :=
+  match cs[i]? with
+  | some (.nInsert _ mk) => { key := s.key, vals := mk s.vals }
+  | _ => { key := s.key, vals := [] }
 
 def specRow (cs : List Clause) (src : List SRow) (t : TRow) : Option TRow :=
   match src.find? (on t) with
@@ -66,7 +72,7 @@ def specRow (cs : List Clause) (src : List SRow) (t : TRow) : Option TRow :=
 
 def specInserts (cs : List Clause) (tgt : List TRow) (src : List SRow) : List TRow :=
   (src.filter fun s => !(tgt.any fun t => on t s)).filterMap fun s =>
-    (opN cs s).map fun _ => { key := s.key, x := 0, v := s.y }
+    (opN cs s).map fun i => mkRowAt cs i s
 
 def spec (cs : List Clause) (tgt : List TRow) (src : List SRow) : List TRow :=
   tgt.filterMap (specRow cs src) ++ specInserts cs tgt src
@@ -84,9 +90,9 @@ def cands (cs : List Clause) (tgt : List TRow) (src : List SRow) : List Cand :=
 def mutate (cd : List Cand) (tgt : List TRow) (i : Nat) (c : Clause) : List TRow :=
   match c with
   | .mDelete _ => tgt.filter fun t => !(cd.any fun k => on t k.s && k.op == i)
-  | .mUpdate _ => tgt.map fun t => match cd.find? (fun k => on t k.s && k.op == i) with
-      | some k => { t with v := k.s.y } | none => t
-  | .nInsert _ => tgt ++ (cd.filter (fun k => k.op == i)).map fun k => { key := k.s.key, x := 0, v := k.s.y }
+  | .mUpdate _ f => tgt.map fun t => match cd.find? (fun k => on t k.s && k.op == i) with
+      | some k => { t with vals := f t.vals k.s.vals } | none => t
+  | .nInsert _ mk => tgt ++ (cd.filter (fun k => k.op == i)).map fun k => { key := k.s.key, vals := mk k.s.vals }
 
 def implGo (cd : List Cand) : List Clause → Nat → List TRow → List TRow
   | [], _, tgt => tgt
@@ -103,8 +109,8 @@ deriving DecidableEq, Repr
 
 def Clause.kind : Clause → Kind
   | .mDelete _ => .del
-  | .mUpdate _ => .upd
-  | .nInsert _ => .ins
+  | .mUpdate _ _ => .upd
+  | .nInsert _ _ => .ins
 
 /-- does some clause of this kind occur (the count column is only reported then) -/
 def hasKind (cs : List Clause) (k : Kind) : Bool := cs.any fun c => c.kind == k
@@ -149,9 +155,11 @@ namespace Fs.Merge
 def h2b (cs : List Clause) (tgt : List TRow) (src : List SRow) : Bool :=
   src.all fun s => tgt.all fun t => tgt.all fun t' => !(on t s && on t' s) || (opM cs t s == opM cs t' s)
 
-/-! ### Clause conditions as data (what the harness can render as SQL) -/
+/-! ### Clause conditions and assignments as data (what the harness can render as SQL)
 
-inductive Col | tx | tv | sy
+Columns are addressed by index: `t i` = i-th non-key target column, `s i` = i-th non-key source column. -/
+
+inductive Col | t (i : Nat) | s (i : Nat)
 deriving DecidableEq, Repr
 inductive Cmp | eq | ne | lt | ge
 deriving DecidableEq, Repr
@@ -172,22 +180,35 @@ def Cmp.eval : Cmp → Nat → Nat → Bool
 
 def Cond.eval : Cond → TRow → SRow → Bool
   | .tt, _, _ => true
-  | .cmp .tx o n, t, _ => o.eval t.x n
-  | .cmp .tv o n, t, _ => o.eval t.v n
-  | .cmp .sy o n, _, s => o.eval s.y n
+  | .cmp (.t i) o n, t, _ => o.eval (t.vals.getD i 0) n
+  | .cmp (.s i) o n, _, s => o.eval (s.vals.getD i 0) n
   | .and a b, t, s => a.eval t s && b.eval t s
   | .or a b, t, s => a.eval t s || b.eval t s
   | .not a, t, s => !(a.eval t s)
 
+/-- right-hand side of an assignment / an inserted value: a bare source column or a constant (H4) -/
+inductive Rhs | src (i : Nat) | const (n : Nat)
+deriving Repr
+
+def Rhs.eval : Rhs → List Nat → Nat
+  | .src i, sv => sv.getD i 0
+  | .const n, _ => n
+
+/-- `UPDATE SET col_j = rhs, …`: columns not assigned keep their value; a column assigned twice takes the first -/
+def applyAssigns (as : List (Nat × Rhs)) (old sv : List Nat) : List Nat :=
+  old.zipIdx.map fun (v, j) => match as.find? (fun a => a.1 == j) with
+    | some a => a.2.eval sv
+    | none => v
+
 inductive ClauseD
   | del (c : Cond)
-  | upd (c : Cond)
-  | ins (c : Cond)     -- only `sy` comparisons are meaningful (no target row); evaluated with a dummy target
+  | upd (c : Cond) (as : List (Nat × Rhs))
+  | ins (c : Cond) (vals : List Rhs)     -- condition may only read source columns (evaluated with a dummy target)
 deriving Repr
 
 def ClauseD.toClause : ClauseD → Clause
   | .del c => .mDelete c.eval
-  | .upd c => .mUpdate c.eval
-  | .ins c => .nInsert fun s => c.eval ⟨none, 0, 0⟩ s
+  | .upd c as => .mUpdate c.eval (applyAssigns as)
+  | .ins c vs => .nInsert (fun s => c.eval ⟨none, []⟩ s) (fun sv => vs.map (·.eval sv))
 
 end Fs.Merge
